@@ -19,6 +19,8 @@ Lemma jitter_bound_pinned : jitter_bound_announce = 250 /\ jitter_bound_conflict
 Proof. split; reflexivity. Qed.
 Lemma announce_repeat_pinned now : announce_repeat_probing now = now + 1000 /\ announce_repeat_register = 1000.
 Proof. split; reflexivity. Qed.
+Lemma announce_repeat_add_interface_pinned : announce_repeat_add_interface = 1000.
+Proof. reflexivity. Qed.
 Lemma goodbye_repeat_pinned : goodbye_repeat_v4 = 120 /\ goodbye_repeat_v6 = 120.
 Proof. split; reflexivity. Qed.
 Lemma ttl_pinned : dns_host_ttl = 120 /\ dns_other_ttl = 4500 /\ class_in = 1.
@@ -31,7 +33,8 @@ Lemma c07_constants :
   (forall start now, probe_expired start now = (start + 750 <=? now)) /\
   (forall next now, probe_due next now = (next <=? now)) /\
   jitter_bound_announce = 250 /\
-  (forall now, announce_repeat_probing now = now + 1000) /\ announce_repeat_register = 1000.
+  (forall now, announce_repeat_probing now = now + 1000) /\ announce_repeat_register = 1000 /\
+  announce_repeat_add_interface = 1000.
 Proof. repeat split; reflexivity. Qed.
 
 Lemma c08_constants :
